@@ -363,3 +363,247 @@ def rel_close(a, b, rel, abs_):
     if a.shape != b.shape:
         return False
     return bool(np.all(np.abs(a - b) <= abs_ + rel * np.maximum(np.abs(a), np.abs(b))))
+
+
+# =========================================================================== round c (additive; nothing above is changed)
+# TIME-DEPENDENT catalogue: models in which one parameter acts only during a WINDOW of time (its column of the gradient
+# matrix d f / d theta is exactly zero outside the window), a parameter multiplying a state that is exactly zero until a
+# threshold time, a parameter that only matters after a threshold time, a linear model with windowed forcing, a model
+# with a state that never changes.  Built through the public API (SimulateOde + Transition with `t` in the equation);
+# the oracle's right-hand side is hand-written below (plain Python floats; no sympy, no pygom).
+#
+# The window shape PHI(t) is exactly zero outside (a, b).  Only the time points a, b (and a + r, b - r for the
+# trapezoid) are non-smooth and they do not depend on any parameter, so the solution is a smooth function of the
+# parameters and of the initial values for every fixed t: finite differences IN THE PARAMETERS are as good as for an
+# autonomous model.  The reference integrates piecewise between the non-smooth time points (`ref_traj_td`), so every
+# piece is smooth and the 1e-12 tolerance of DOP853 means what it says.
+
+TD_SHAPES = {
+    # name: (sympy text with {a} {b} {c} {h} {r},  python phi(t, a, b),  non-smooth points,  continuity class)
+    "bump": ("Max(0, 1 - ((t - {c})/{h})**2)",
+             lambda t, a, b: max(0.0, 1.0 - ((t - 0.5 * (a + b)) / (0.5 * (b - a))) ** 2), lambda a, b: [a, b], "C0"),
+    "bump-squared": ("Max(0, 1 - ((t - {c})/{h})**2)**2",
+                     lambda t, a, b: max(0.0, 1.0 - ((t - 0.5 * (a + b)) / (0.5 * (b - a))) ** 2) ** 2, lambda a, b: [a, b], "C1"),
+    "box": ("Piecewise((1, (t > {a}) & (t < {b})), (0, True))",
+            lambda t, a, b: 1.0 if a < t < b else 0.0, lambda a, b: [a, b], "jump"),
+    "heaviside": ("(Heaviside(t - {a}) - Heaviside(t - {b}))",
+                  lambda t, a, b: 1.0 if a < t < b else 0.0, lambda a, b: [a, b], "jump"),
+    "trapezoid": ("Max(0, Min(1, (t - {a})/{r}, ({b} - t)/{r}))",
+                  lambda t, a, b: max(0.0, min(1.0, (t - a) / (0.25 * (b - a)), (b - t) / (0.25 * (b - a)))),
+                  lambda a, b: [a, a + 0.25 * (b - a), b - 0.25 * (b - a), b], "C0"),
+    "late-ramp": ("Max(0, t - {a})", lambda t, a, b: max(0.0, t - a), lambda a, b: [a], "C0"),        # zero until a, never closes
+    "late-step": ("Heaviside(t - {a})", lambda t, a, b: 1.0 if t > a else 0.0, lambda a, b: [a], "jump"),
+    "early": ("Max(0, 1 - t/{b})", lambda t, a, b: max(0.0, 1.0 - t / b), lambda a, b: [b], "C0"),      # acts from t0 until b only
+}
+TD_AUTONOMOUS = "none"          # shape name of the models without time dependence
+
+
+def _td_rhs_import(phi):
+    return lambda t, x, th: [-th[0] * x[0] * x[1] / 10.0 - th[2] * x[0] * phi(t),
+                             th[0] * x[0] * x[1] / 10.0 + th[2] * x[0] * phi(t) - th[1] * x[1], th[1] * x[1]]
+
+
+def _td_rhs_lockdown(phi):
+    return lambda t, x, th: [-th[0] * (1.0 - th[2] * phi(t)) * x[0] * x[1] / 10.0,
+                             th[0] * (1.0 - th[2] * phi(t)) * x[0] * x[1] / 10.0 - th[1] * x[1], th[1] * x[1]]
+
+
+def _td_rhs_campaign(phi):
+    return lambda t, x, th: [-th[0] * x[0] * x[1] / 10.0 - th[2] * x[0] * phi(t), th[0] * x[0] * x[1] / 10.0 - th[1] * x[1],
+                             th[1] * x[1], th[2] * x[0] * phi(t)]
+
+
+def _td_rhs_dosing(phi):
+    return lambda t, x, th: [th[2] * phi(t) - th[0] * x[0], th[0] * x[0] - th[1] * x[1]]
+
+
+def _td_rhs_seeded(phi):
+    return lambda t, x, th: [-th[0] * x[0] * x[1] / 10.0 - th[2] * x[2] * x[0],
+                             th[0] * x[0] * x[1] / 10.0 + th[2] * x[2] * x[0] - th[1] * x[1], 0.5 * phi(t)]
+
+
+def _td_rhs_constN(phi):
+    return lambda t, x, th: [-th[0] * x[0] * x[1] / x[3], th[0] * x[0] * x[1] / x[3] - th[1] * x[1], th[1] * x[1], 0.0]
+
+
+# transitions: (type, origin, destination, equation) with PHI standing for the window shape
+TD_CATALOGUE = {
+    # external force of infection during a window: d f / d imp = -+ S PHI(t), zero outside the window
+    "SIR_import": dict(states=["S", "I", "R"], params=["beta", "gamma", "imp"], windowed="imp",
+                       transitions=[("T", "S", "I", "beta*S*I/10"), ("T", "S", "I", "imp*S*PHI"), ("T", "I", "R", "gamma*I")],
+                       rhs=_td_rhs_import, theta=[(0.3, 0.9), (0.1, 0.4), (0.02, 0.2)],
+                       x0=[(6.0, 9.0), (0.5, 2.0), (0.2, 1.0)], T=(6.0, 12.0), positive=True),
+    # lock-down: the contact rate is reduced by the fraction `red` during the window
+    "SIR_lockdown": dict(states=["S", "I", "R"], params=["beta", "gamma", "red"], windowed="red",
+                         transitions=[("T", "S", "I", "beta*(1 - red*PHI)*S*I/10"), ("T", "I", "R", "gamma*I")],
+                         rhs=_td_rhs_lockdown, theta=[(0.4, 1.0), (0.1, 0.4), (0.2, 0.8)],
+                         x0=[(6.0, 9.0), (0.5, 2.0), (0.2, 1.0)], T=(6.0, 12.0), positive=True),
+    # vaccination campaign into a fourth compartment (4 states)
+    "SIRV_campaign": dict(states=["S", "I", "R", "V"], params=["beta", "gamma", "nu"], windowed="nu",
+                          transitions=[("T", "S", "I", "beta*S*I/10"), ("T", "I", "R", "gamma*I"), ("T", "S", "V", "nu*S*PHI")],
+                          rhs=_td_rhs_campaign, theta=[(0.4, 1.0), (0.1, 0.4), (0.05, 0.4)],
+                          x0=[(6.0, 9.0), (0.5, 2.0), (0.2, 1.0), (0.1, 0.5)], T=(6.0, 12.0), positive=True),
+    # LINEAR two-compartment chain with a dose given during the window (constant Jacobian, no second derivatives)
+    "dosing_chain": dict(states=["A", "B"], params=["ka", "ke", "dose"], windowed="dose",
+                         transitions=[("B", "A", None, "dose*PHI"), ("T", "A", "B", "ka*A"), ("D", "B", None, "ke*B")],
+                         rhs=_td_rhs_dosing, theta=[(0.3, 1.0), (0.1, 0.5), (0.5, 3.0)],
+                         x0=[(1.0, 4.0), (0.5, 2.0)], T=(5.0, 10.0), positive=True),
+    # kappa multiplies the state W, which is EXACTLY zero until the window opens (and constant after it closes):
+    # d f / d kappa = -+ W S vanishes on the first part of the trajectory
+    "SIW_seeded": dict(states=["S", "I", "W"], params=["beta", "gamma", "kappa"], windowed="kappa",
+                       transitions=[("T", "S", "I", "beta*S*I/10 + kappa*W*S"), ("D", "I", None, "gamma*I"), ("B", "W", None, "0.5*PHI")],
+                       rhs=_td_rhs_seeded, theta=[(0.3, 0.9), (0.1, 0.4), (0.02, 0.15)],
+                       x0=[(6.0, 9.0), (0.5, 2.0), (0.0, 0.0)], T=(6.0, 12.0), positive=False),
+    # autonomous, with a declared state that never changes (its sensitivities in every parameter are exactly zero)
+    "SIR_constN": dict(states=["S", "I", "R", "N"], params=["beta", "gamma"], windowed=None,
+                       transitions=[("T", "S", "I", "beta*S*I/N"), ("T", "I", "R", "gamma*I")],
+                       rhs=_td_rhs_constN, theta=[(0.3, 0.9), (0.1, 0.4)],
+                       x0=[(6.0, 9.0), (0.5, 2.0), (0.2, 1.0), (8.0, 12.0)], T=(4.0, 12.0), positive=True),
+}
+
+
+def td_phi(shape, win):
+    """python window function t -> float for the shape name and window [a, b]"""
+    if shape == TD_AUTONOMOUS:
+        return lambda t: 0.0
+    f = TD_SHAPES[shape][1]
+    a, b = float(win[0]), float(win[1])
+    return lambda t: f(t, a, b)
+
+
+def td_breaks(shape, win):
+    if shape == TD_AUTONOMOUS:
+        return []
+    return [float(v) for v in TD_SHAPES[shape][2](float(win[0]), float(win[1]))]
+
+
+def td_shape_text(shape, win):
+    a, b = float(win[0]), float(win[1])
+    return TD_SHAPES[shape][0].format(a=repr(a), b=repr(b), c=repr(0.5 * (a + b)), h=repr(0.5 * (b - a)), r=repr(0.25 * (b - a)))
+
+
+def gen_setup_td(rng, name=None, shape=None, n_times=None, obs=None):
+    """like gen_setup, for the time-dependent catalogue: model = {"src": "td", "name", "shape", "win": [a, b]}.
+    At least one observation time lies after the window has closed (resp. after the threshold time)."""
+    r = rng
+    name = name or r.choice(sorted(TD_CATALOGUE))
+    c = TD_CATALOGUE[name]
+    states, params = c["states"], c["params"]
+    if c["windowed"] is None:
+        shape = TD_AUTONOMOUS
+    elif shape is None:
+        shape = r.choice(sorted(TD_SHAPES))
+    theta = [round(r.uniform(*b), 4) for b in c["theta"]]
+    x0 = [round(r.uniform(*b), 4) for b in c["x0"]]
+    T = round(r.uniform(*c["T"]), 3)
+    a = round(T * r.uniform(0.1, 0.35), 3)
+    b = round(T * r.uniform(0.5, 0.75), 3)
+    n = n_times if n_times is not None else r.randint(3, 7)
+    brk = td_breaks(shape, [a, b])
+    times = None
+    for _ in range(50):
+        if n == 1:
+            cand = [round(T * r.uniform(0.8, 1.0), 6)]
+        elif r.random() < 0.5:
+            cand = [round(T * (i + 1) / n, 6) for i in range(n)]
+        else:
+            cand = sorted(set(round(T * u, 6) for u in [r.uniform(0.05, 1.0) for _ in range(n - 1)] + [r.uniform(0.85, 1.0)]))
+        if all(abs(t - k) > 1e-2 for t in cand for k in brk) and all(t2 - t1 > 1e-3 for t1, t2 in zip(cand, cand[1:])) and cand[-1] > b + 1e-2:
+            times = cand
+            break
+    if times is None:
+        times = [round(b + (T * 1.05 - b) * (i + 1) / n, 6) for i in range(n)]          # all after the window
+    if obs is None:
+        obs = r.sample(states, r.randint(1, len(states)))
+    theta_eval = [round(v * r.uniform(0.8, 1.25), 4) for v in theta]
+    x0_eval = [round(v * r.uniform(0.85, 1.2), 4) for v in x0]
+    return {"model": {"src": "td", "name": name, "shape": shape, "win": [a, b]}, "states": list(states), "params": list(params),
+            "theta_true": theta, "theta_eval": theta_eval, "x0": x0, "x0_eval": x0_eval, "t0": 0.0, "times": times,
+            "grid": "td", "obs": list(obs)}
+
+
+def build_td(m, backend="lambda"):
+    """the real pygom model of a time-dependent catalogue entry (fresh object) and the oracle's right-hand side"""
+    from .. import bootstrap
+    bootstrap.init()
+    from pygom import SimulateOde, Transition
+    c = TD_CATALOGUE[m["name"]]
+    text = "0" if m["shape"] == TD_AUTONOMOUS else td_shape_text(m["shape"], m["win"])
+    trans, bd = [], []
+    for tt, o, d, eq in c["transitions"]:
+        eq = eq.replace("PHI", text)
+        if tt == "T":
+            trans.append(Transition(origin=o, destination=d, equation=eq, transition_type="T"))
+        else:
+            bd.append(Transition(origin=o, equation=eq, transition_type=tt))
+    model = SimulateOde(list(c["states"]), list(c["params"]), transition=trans, birth_death=bd)
+    if backend == "lambda":
+        bootstrap.fast_backend(model)
+    return model, c["rhs"](td_phi(m["shape"], m["win"]))
+
+
+def build_model_any(setup, backend="lambda"):
+    """build_model for every kind of setup (random / catalogue / td)"""
+    if setup["model"]["src"] == "td":
+        model, rhs = build_td(setup["model"], backend)
+        return model, rhs, None
+    return build_model(setup, backend)
+
+
+def box_any(setup):
+    m = setup["model"]
+    if m["src"] == "td":
+        return dict(lo=-1e-9, hi=100.0) if TD_CATALOGUE[m["name"]]["positive"] else dict(lo=None, hi=100.0)
+    return box(setup)
+
+
+def ref_traj_td(rhs, theta, x0, t0, times, breaks, lo=None, hi=1e3, max_evals=60000):
+    """ref_traj for a right-hand side that is non-smooth in t at the time points `breaks` (which do not depend on the
+    parameters): DOP853 at 1e-12 from one stop (observation time or break) to the next; inside a piece the time handed to
+    the right-hand side is kept strictly inside the piece (one ulp), so that a jump AT a stop is seen from the side of
+    the piece being integrated and every piece is smooth."""
+    from scipy.integrate import solve_ivp
+    th = [float(v) for v in theta]
+    count = [0]
+    times = [float(t) for t in times]
+    stops = sorted(set(times) | set(b for b in breaks if float(t0) < b < max(times)))
+    want = set(times)
+    rows = {}
+    cur_t, cur_x = float(t0), np.array(x0, float)
+    if cur_t in want:
+        rows[cur_t] = cur_x.copy()
+    try:
+        for t1 in stops:
+            if t1 <= cur_t:
+                continue
+            lo_t, hi_t = np.nextafter(cur_t, np.inf), np.nextafter(t1, -np.inf)
+
+            def f(t, x):
+                count[0] += 1
+                if count[0] > max_evals:
+                    raise _Budget()
+                return rhs(min(max(t, lo_t), hi_t), x, th)
+            sol = solve_ivp(f, (cur_t, t1), cur_x, method="DOP853", rtol=1e-12, atol=1e-12)
+            if not sol.success:
+                return None
+            cur_t, cur_x = t1, sol.y[:, -1]
+            if not np.all(np.isfinite(cur_x)) or np.max(np.abs(cur_x)) > hi or (lo is not None and np.min(cur_x) < lo):
+                return None
+            if t1 in want:
+                rows[t1] = cur_x.copy()
+    except (OverflowError, ZeroDivisionError, ValueError, FloatingPointError, _Budget):
+        return None
+    return np.array([rows[t] for t in times])
+
+
+def ref_traj_any(setup, rhs, theta, x0, t0, times, **bx):
+    m = setup["model"]
+    if m["src"] == "td" and m["shape"] != TD_AUTONOMOUS:
+        return ref_traj_td(rhs, theta, x0, t0, times, td_breaks(m["shape"], m["win"]), **bx)
+    return ref_traj(rhs, theta, x0, t0, times, **bx)
+
+
+def all_orders(names, k=None):
+    """every ordered selection of k (default: all) of the names"""
+    import itertools
+    return [list(p) for p in itertools.permutations(names, len(names) if k is None else k)]
